@@ -9,7 +9,6 @@ import (
 	"time"
 )
 
-func cliStubMain(args []string) {}
 
 // selftestDeterminism: every engine/profile, N seeds, each seed in three fresh
 // processes at GOMAXPROCS 1, 4 and 16 with 16 workers busy; the event logs must
